@@ -78,6 +78,8 @@ def oracles():
             return 'the argument was changed (C08)'
         if isinstance(out, str) is False:
             return 'result is not a string'
+        if c.get('src') and mass_calc.condense_to_mass_mods(c['src'], c['plus'], p) != out:
+            return 'string input and annotation input give different results'
         b = pp.parse(out)
         # same residues
         if b.sequence != a.sequence:
@@ -228,7 +230,8 @@ def run(chk):
              '<[Oxidation]@M,N-Term><13C>MPEM/2', '{Glycan:Hex}{1.5}PEP', 'PEPTIDE-[Methyl][1]']
     for s in fixed:
         for plus in (False, True):
-            cases.append({'a': annot.dump(pp.parse(s), sort_internal=False), 'rules': None, 'plus': plus, 'p': rng.choice([3, 6, 8])})
+            cases.append({'a': annot.dump(pp.parse(s), sort_internal=False), 'rules': None, 'plus': plus, 'p': rng.choice([3, 6, 8]),
+                          'src': s})
     for c in cases:
         a = _ann(c)
         for k, v in (('static', a._static_mods), ('isotope', a._isotope_mods), ('labile', a._labile_mods), ('unknown', a._unknown_mods),
